@@ -131,6 +131,18 @@ static void scenario() {
                 if (nested) tbb::this_task_arena::isolate([&] { tbb::task_group t2; t2.run([&] { vf_point(); }); t2.wait(); });
                 tbb::task_group in; in.run([&] { for (int i = 0; i < 300 && !submitted; i++) vf_yield(); }); gin = &in; in.wait(); gin = nullptr; in_iso = 0; });
             outer.wait(); }); vf_window(0); }
+    else if (streq(k, "observer_slot")) {   // a thread is inside the arena from its on_scheduler_entry to the end of its on_scheduler_exit: indices distinct, at most max_concurrency threads
+        tbb::global_control gc(tbb::global_control::max_allowed_parallelism, 3); tbb::task_arena a(2, 2); a.initialize();   // both slots reserved for application threads: no workers
+        struct SlotObs : tbb::task_scheduler_observer { int held[8], inside; SlotObs(tbb::task_arena& ar) : tbb::task_scheduler_observer(ar), inside(0) { for (int& h : held) h = 0; }
+            void on_scheduler_entry(bool) override { int idx = tbb::this_task_arena::current_thread_index(); if (idx < 0 || idx >= 2) vf_fail("observer entry: current_thread_index %d in an arena of 2 slots", idx);
+                if (held[idx]++) vf_fail("on_scheduler_entry: slot index %d is handed to a second thread while the thread that holds it is still inside (its on_scheduler_exit has not finished)", idx);
+                if (++inside > 2) vf_fail("%d threads are inside a task_arena with max_concurrency 2 (counted from on_scheduler_entry to the end of on_scheduler_exit)", inside); }
+            void on_scheduler_exit(bool) override { int idx = tbb::this_task_arena::current_thread_index(); for (int j = 0; j < 6; j++) vf_yield();   /* a slow user callback */
+                if (idx < 0 || idx >= 2 || held[idx] != 1) vf_fail("on_scheduler_exit: slot index %d is held by %d threads", idx, idx >= 0 && idx < 2 ? held[idx] : -1); held[idx]--; inside--; } } obs(a);
+        obs.observe(true);
+        auto ids = gated(2, [&](int) { is_ext[vf_self()] = true; (void)tbb::this_task_arena::max_concurrency(); }, [&](int) { a.execute([] { vf_point(); }); });
+        vf_window(1); a.execute([&] { vf_gate_open(); for (int j = 0; j < 3000 && !vf_others_idle(); j++) vf_yield(); });   // the main thread keeps slot 0 while the two others pass through slot 1
+        join_all(ids); vf_window(0); obs.observe(false); }
     else vf_fail("unknown kind");
     vf_liveness(0);
     vf_outcome("maxlive=%d", maxlive);
